@@ -52,6 +52,7 @@ where
     ) -> Result<(), RuntimeError<S::DataError>> {
         tx.prepare_sign();
         self.tx = tx;
+        self.debugger.clear_last_state();
         self.input_contracts = self
             .tx
             .inputs()
